@@ -797,7 +797,25 @@ func (s *c12s) oracles(b *types.Block, cands []*c12Tx, included map[int]bool, v 
 
 // ---- the scenario ----------------------------------------------------------------------------
 
+// c12: episodes of at most 150 random blocks, each in a fresh world (the dump of a block reads every known
+// (holder, id) pair, so one long chain would cost quadratic time); every episode starts with the scripted prefix.
 func c12(c *Ctx) {
+	left := c.N
+	for ep := 0; ; ep++ {
+		nb := left
+		if nb > 150 {
+			nb = 150
+		}
+		c12Episode(c, nb)
+		c.Count("episodes")
+		left -= nb
+		if left <= 0 {
+			break
+		}
+	}
+}
+
+func c12Episode(c *Ctx, nBlocks int) {
 	now := uint32(time.Now().Unix())
 	w := NewWorld(3, now-600000, 10000)
 	n := w.NewNode(3)
@@ -875,7 +893,7 @@ func c12(c *Ctx) {
 	s.prev = s.view(s.parent.Hash())
 
 	s.scripted()
-	for blk := 0; blk < c.N && !s.stop; blk++ {
+	for blk := 0; blk < nBlocks && !s.stop; blk++ {
 		s.randomBlock()
 	}
 }
